@@ -1,6 +1,6 @@
 (* Property C18 — symbolized callables keep Python call semantics.
    Only statements and [exact]; definitions are in Model/Binding.v, proofs in Proofs/Binding*.v. *)
-From PG Require Import Common.Tactics Model.Binding Proofs.BindingMaps Proofs.BindingProofs Proofs.BindingSig Proofs.BindingReport Proofs.BindingDirect Proofs.BindingClass.
+From PG Require Import Common.Tactics Model.Binding Proofs.BindingMaps Proofs.BindingProofs Proofs.BindingSig Proofs.BindingReport Proofs.BindingDirect Proofs.BindingClass Proofs.BindingSets.
 From Coq Require Import NArith.
 Local Open Scope N_scope.
 
@@ -93,3 +93,17 @@ Theorem C18_class_wrapper : forall s ctor partial lates,
   cls_bind s ctor partial lates = cls_spec s ctor partial lates.
 Proof. exact symbolized_class_binds_effective_arguments. Qed.
 Print Assumptions C18_class_wrapper.
+
+(* default_args / non_default_args: an argument is reported at its default exactly when it has a
+   default and was not supplied or was supplied with that value; non-default exactly when it was
+   supplied and is not at its default; *args is at its default when no variadic value is held. *)
+Theorem C18_reported_default_sets : forall q s ctor ov ie lates st0 st,
+  wf_sig s -> no_quirks q -> late_names_ok s lates ->
+  functor_ctor s ctor ov ie = Ok st0 -> late_all q s st0 lates = Ok st ->
+  exists e, bound_arguments s ctor lates = Ok e /\
+    (forall k, is_va s k = false -> smem k (dflt st) = at_default s (enamed e) k) /\
+    (forall k, is_va s k = false -> smem k (nond st) = kmem k (enamed e) && negb (at_default s (enamed e) k)) /\
+    (has_va s = true -> smem (va_name s) (dflt st) = is_nil (evl e)) /\
+    (has_va s = true -> smem (va_name s) (nond st) = evs e && negb (is_nil (evl e))).
+Proof. exact functor_reports_default_sets. Qed.
+Print Assumptions C18_reported_default_sets.
